@@ -21,6 +21,7 @@ import (
 type nodeEvent struct {
 	block *Block
 	tx    *wire.MsgTx
+	disc  []*Block // blocks disconnected without replacement, tip first
 }
 
 // ErrInjected is returned by a backend call the harness armed to fail.
@@ -259,6 +260,9 @@ func (c *Client) NotifyBlocks() error {
 			if e.block != nil && c.node.OnBest(e.block) && e.block.Height <= t.Height {
 				continue
 			}
+			if e.disc != nil {
+				continue // the best block was just re-evaluated against the node
+			}
 			keep = append(keep, e)
 		}
 		c.pending = keep
@@ -394,7 +398,7 @@ func (c *Client) Rescan(blockHash *chainhash.Hash, addrs []btcutil.Address,
 		c.best = waddrmgr.BlockStamp{Hash: tip.Hash, Height: tip.Height, Timestamp: tip.Time()}
 		var keep []nodeEvent
 		for _, e := range c.pending {
-			if e.block != nil {
+			if e.block != nil || e.disc != nil {
 				continue
 			}
 			keep = append(keep, e)
@@ -565,7 +569,19 @@ func (c *Client) Deliver(n int) int {
 		e := c.pending[0]
 		c.pending = c.pending[1:]
 		k++
-		if e.block != nil {
+		if e.disc != nil {
+			if !c.notifyBlocks {
+				continue
+			}
+			for _, b := range e.disc {
+				if b.Hash != c.best.Hash {
+					continue // the client never announced this block
+				}
+				c.out = c.appendDisc(b)
+				par := c.node.BlockByHash(&b.Msg.Header.PrevBlock)
+				c.best = waddrmgr.BlockStamp{Hash: par.Hash, Height: par.Height, Timestamp: par.Time()}
+			}
+		} else if e.block != nil {
 			if !c.notifyBlocks {
 				continue // bitcoind: the client is not a rescan client yet
 			}
